@@ -405,6 +405,47 @@ def select_features():
 
 
 @test
+def json_quote_and_contains():
+    """JSON_QUOTE / JSON_CONTAINS as the MySQL 8.0 manual documents them (examples of section 14.17.2 / 14.17.3 where it gives any)"""
+    db = small_db()
+
+    def v(sql, params=None):
+        return q1(db, sql, params)[0]
+    assert v("SELECT JSON_QUOTE('null') AS j") == '"null"'
+    assert v("""SELECT JSON_QUOTE('"null"') AS j""") == '"\\"null\\""'
+    assert v("SELECT JSON_QUOTE('[1, 2, 3]') AS j") == '"[1, 2, 3]"'
+    assert v("SELECT JSON_QUOTE(NULL) AS j") is None
+    # manual: SET @j = '{"a": 1, "b": 2, "c": {"d": 4}}'; JSON_CONTAINS(@j, '1') -> 0 ; JSON_CONTAINS(@j, '{"d": 4}') -> 0 (top level)
+    j = '{"a": 1, "b": 2, "c": {"d": 4}}'
+    assert v("SELECT JSON_CONTAINS(%s, '1') AS r", (j,)) == 0
+    assert v("SELECT JSON_CONTAINS(%s, %s) AS r", (j, '{"a": 1}')) == 1
+    assert v("SELECT JSON_CONTAINS(%s, %s) AS r", (j, '{"d": 4}')) == 0
+    assert v("SELECT JSON_CONTAINS(%s, %s) AS r", (j, '{"c": {"d": 4}}')) == 1
+    # arrays: scalar in array, array in array (every element in some element), array not in scalar
+    assert v("""SELECT JSON_CONTAINS('["alice", "bob"]', JSON_QUOTE('bob')) AS r""") == 1
+    assert v("""SELECT JSON_CONTAINS('["alice", "bob"]', JSON_QUOTE('carol')) AS r""") == 0
+    assert v("""SELECT JSON_CONTAINS('["alice", "bob"]', JSON_QUOTE('Alice')) AS r""") == 0      # JSON strings: case-sensitive
+    assert v("""SELECT JSON_CONTAINS('["alice", "bob"]', JSON_QUOTE('ali')) AS r""") == 0
+    assert v("SELECT JSON_CONTAINS('[1, 2, [3, 4]]', '[4, 1]') AS r") == 1      # 4 is contained in the element [3, 4], 1 in 1
+    assert v("SELECT JSON_CONTAINS('[1, 2, [3, 4]]', '[4, 5]') AS r") == 0
+    assert v("SELECT JSON_CONTAINS('[1, 2, [3, 4]]', '[2, 1]') AS r") == 1
+    assert v("SELECT JSON_CONTAINS('[1, 2, [3, 4]]', '4') AS r") == 1
+    assert v("SELECT JSON_CONTAINS('1', '[1]') AS r") == 0
+    assert v("SELECT JSON_CONTAINS('1', '1.0') AS r") == 1 and v("""SELECT JSON_CONTAINS('1', '"1"') AS r""") == 0
+    assert v("SELECT JSON_CONTAINS('true', '1') AS r") == 0
+    assert v("SELECT JSON_CONTAINS(NULL, '1') AS r") is None and v("SELECT JSON_CONTAINS('[1]', NULL) AS r") is None
+    try:
+        v("SELECT JSON_CONTAINS('[1', '1') AS r")
+        raise AssertionError('invalid JSON accepted')
+    except Exception as e:      # converted to the pymysql exception class at the API boundary
+        assert e.args[0] == 3141, e.args
+    # with the aggregate the batch front end uses: members of a project as JSON_ARRAYAGG, membership test by JSON_CONTAINS
+    db.execute("INSERT INTO u (a, b, c) VALUES (1, 10, 'x'), (2, 20, 'y'), (3, 20, 'z')")
+    assert db.query("SELECT JSON_CONTAINS(JSON_ARRAYAGG(c), JSON_QUOTE('y')) AS r, JSON_CONTAINS(JSON_ARRAYAGG(c), JSON_QUOTE('Y')) AS r2 FROM u") \
+        == [{'r': 1, 'r2': 0}]
+
+
+@test
 def unsupported_is_loud():
     db = small_db()
     for sql in ('SELECT a FROM u RIGHT JOIN t ON 1', 'SELECT 1 | 2', "SELECT DATE_ADD(NOW(), INTERVAL 1 DAY)", 'CREATE TABLE z (a INT)',
